@@ -5,6 +5,9 @@ import (
 	"crypto/sha256"
 	"errors"
 	"fmt"
+	"github.com/ethereum/go-ethereum/crypto"
+	"github.com/protolambda/ztyp/codec"
+	"os"
 
 	"github.com/ethereum/go-ethereum/common"
 	"github.com/zen-eth/shisui/state"
@@ -74,8 +77,51 @@ func runStateAdapterPar(seed uint64) {
 			continue
 		}
 		store, why := judgeState(headers, key, val)
+		if why != "" && os.Getenv("VERIF_DBG13") != "" {
+			k, c := &state.ContractStorageTrieNodeKey{}, &state.ContractStorageTrieNodeWithProof{}
+			rd := func(b []byte) *codec.DecodingReader {
+				return codec.NewDecodingReader(bytes.NewReader(b), uint64(len(b)))
+			}
+			e1, e2 := k.Deserialize(rd(key[1:])), c.Deserialize(rd(val))
+			fmt.Fprintf(os.Stderr, "decode errs %v %v; account proof %d nodes, storage proof %d nodes, path %v\n", e1, e2, len(c.AccountProof), len(c.StorageProof), k.Path.Nibbles)
+			for i, n := range c.StorageProof {
+				fmt.Fprintf(os.Stderr, "  storage node %d: len %d hash %x\n", i, len(n), crypto.Keccak256(n)[:6])
+			}
+			{
+				var rawp [][]byte
+				for _, n := range c.AccountProof {
+					rawp = append(rawp, []byte(n))
+				}
+				acc, err := accountFromProof(w1.hdr.Root[:], k.AddressHash[:], rawp)
+				if err == nil {
+					fmt.Fprintf(os.Stderr, "account from proof: root %x codehash %x nonce %d\n", acc.Root[:6], acc.CodeHash[:6], acc.Nonce)
+				} else {
+					fmt.Fprintf(os.Stderr, "account from proof: %v\n", err)
+				}
+				for _, a := range w1.accts {
+					fmt.Fprintf(os.Stderr, "  acct %x root %x nonce %d hasStorage=%v\n", a.addrHash[:6], a.acct.Root[:6], a.acct.Nonce, a.storage != nil)
+				}
+			}
+			for i, n := range c.AccountProof {
+				fmt.Fprintf(os.Stderr, "  account node %d: len %d hash %x\n", i, len(n), crypto.Keccak256(n)[:6])
+			}
+			for _, a := range w1.accts {
+				if a.storage == nil {
+					continue
+				}
+				fmt.Fprintf(os.Stderr, "acct %x root=%x storage.root=%x keys=%d\n", a.addrHash[:4], a.acct.Root[:6], a.storage.root[:6], len(a.storage.keys))
+				for _, sk := range a.storage.keys {
+					sn, _ := a.storage.nodesOnPath(sk)
+					if len(sn) > 0 {
+						fmt.Fprintf(os.Stderr, "   key %x: %d nodes, first hash %x len %d\n", sk[:4], len(sn), crypto.Keccak256(sn[0])[:6], len(sn[0]))
+					} else {
+						fmt.Fprintf(os.Stderr, "   key %x: no nodes\n", sk[:4])
+					}
+				}
+			}
+		}
 		if why != "" {
-			fatal2("state-adapter oracle self-test: honest item judged invalid: " + why)
+			fatal2(fmt.Sprintf("state-adapter oracle self-test: honest item judged invalid: %s (key %x, %d content bytes, %d accounts)", why, key, len(val), len(w1.accts)))
 		}
 		seen[string(key)] = true
 		items = append(items, &item{key: key, val: val, want: append([]byte{4, 0, 0, 0}, store...), id: sha256.Sum256(key)})
